@@ -228,6 +228,7 @@ class DoublyLinkedList(Iterable[_T]):
             return
 
         self.remove(node)
+        self.size += 1  # the node stays in the list
         self.head.prev_node = node
 
         node.prev_node = None
@@ -255,6 +256,7 @@ class DoublyLinkedList(Iterable[_T]):
             return
 
         self.remove(node)
+        self.size += 1  # the node stays in the list
         self.tail.next_node = node
 
         node.next_node = None
@@ -307,10 +309,11 @@ class DoublyLinkedList(Iterable[_T]):
         :param after: node after this node will be inserted
         """
 
-        if node == after:
+        if node is after:
             return
 
         self.remove(node)
+        self.size += 1  # the node stays in the list
 
         if after.next_node is None:
             self.tail = node
